@@ -352,25 +352,39 @@ func digest(b []byte) string {
 	return fmt.Sprintf("%d:%x..%s", len(b), b[:8], gen.SHA256Hex(b)[:12])
 }
 
-// env is what a worker keeps across histories.
+// env is the testfs server of one history (testfs and shadow histories only):
+// a real testfs.Server behind a real HTTP listener, with its own directory,
+// removed when the history ends.
 type env struct {
 	t      *testing.T
 	server *testfs.Server
 	hts    *httptest.Server
 	addr   string
-	seq    int
+}
+
+func (e *env) start() {
+	if e.server != nil {
+		return
+	}
+	e.server = testfs.NewServer()
+	e.hts = httptest.NewServer(e.server.Handler())
+	e.addr = strings.TrimPrefix(e.hts.URL, "http://")
 }
 
 func (e *env) close() {
+	if e.server == nil {
+		return
+	}
 	e.hts.Close()
-	e.server.Cleanup()
+	e.server.Cleanup() // testfs.NewServer keeps its files under /tmp
 }
 
-// build creates the real client for a history. dirTag makes roots unique per
-// history on the shared testfs server.
+// build creates the real client for a history. dirTag prefixes roots / bucket
+// names with the history id.
 func (e *env) build(s *spec, dirTag string) (client backend.Client, s3m *memS3, root string, err error) {
 	switch s.Kind {
 	case "testfs":
+		e.start()
 		root = path.Join(dirTag, s.Root)
 		c, err := testfs.NewClient(testfs.Config{Addr: e.addr, Root: root, NamePath: s.Pather}, tally.NoopScope)
 		return c, nil, root, err
@@ -392,6 +406,7 @@ func (e *env) build(s *spec, dirTag string) (client backend.Client, s3m *memS3, 
 		c, err := s3backend.NewClient(cfg, s3backend.UserAuthConfig{"u": s3backend.AuthConfig{}}, tally.NoopScope, s3backend.WithS3(api))
 		return c, s3m, root, err
 	case "shadow-sql-active", "shadow-testfs-active":
+		e.start()
 		root = path.Join(dirTag, s.Root)
 		sqlCfg := map[string]interface{}{"sql": map[string]interface{}{"dialect": "sqlite3", "connection_string": ":memory:"}}
 		fsCfg := map[string]interface{}{"testfs": map[string]interface{}{"addr": e.addr, "root": root, "name_path": s.Pather}}
@@ -422,23 +437,21 @@ func TestC37(t *testing.T) {
 	os.Unsetenv("AWS_CA_BUNDLE") // s3backend.NewClient builds an SDK session of its own; nothing here talks TLS
 
 	const workers = 12
-	n := run.N(2400, 72000)
+	n := run.N(2400, 48000)
 	var wg sync.WaitGroup
 	for k := 0; k < workers; k++ {
 		wg.Add(1)
 		go func(k int) {
 			defer wg.Done()
-			e := &env{t: t, server: testfs.NewServer()}
-			e.hts = httptest.NewServer(e.server.Handler())
-			e.addr = strings.TrimPrefix(e.hts.URL, "http://")
-			defer e.close()
 			for ci := k; ci < n; ci += workers {
 				caseID := fmt.Sprintf("hist-%d", ci)
 				if rc := run.ReplayCase(); rc != "" && rc != caseID {
 					continue
 				}
 				s := genSpec(run.Rand(caseID))
+				e := &env{t: t}
 				runHistory(run, e, caseID, &s)
+				e.close()
 				run.Count("histories_"+s.Kind, 1)
 				if run.WantSample() && ci%331 == 0 {
 					c := s
